@@ -16,20 +16,12 @@ structure Codec (α : Type) where
   shw : α → String
   code : α → Nat            -- element code for the sequence hash
 
-def ltBytes : Bytes → Bytes → Bool
-  | [], [] => false
-  | [], _ :: _ => true
-  | _ :: _, [] => false
-  | a :: s, b :: t => if a < b then true else if b < a then false else ltBytes s t
-
 def codeInt (v : Int) : Nat := (v % 1000003).toNat
 def codeBytes (b : Bytes) : Nat := b.foldl (fun h c => (h * 257 + c.toNat) % 1000003) 1
 
 def intCodec : Codec Int := ⟨String.toInt?, toString, codeInt⟩
 def bytesCodec : Codec Bytes := ⟨unhex, hex, codeBytes⟩
 
-def intElem (esz : Nat) : Elem Int := ⟨0, esz, fun a b => a < b, fun v => v⟩
-def strElem : Elem Bytes := ⟨[], 24, ltBytes, fun b => (b.length : Int)⟩
 
 def seqHash {α : Type} (c : Codec α) (l : List α) : Nat := l.foldl (fun h e => (h * 131 + c.code e) % 1000000007) 7
 
